@@ -111,6 +111,7 @@ def run(prop, tier, seed, replay_path=None):
     # ---- verdict ----------------------------------------------------------------------
     rdir = os.path.join(cf.out_dir("replays"), prop)
     n_viol = 0
+    shutil.rmtree(rdir, ignore_errors=True)
     if violations:
         os.makedirs(rdir, exist_ok=True)
         seen = set()
